@@ -256,6 +256,95 @@ theorem pieces_faithful (s : Bytes) :
     renderPieces (splitImg s) = s ∧ ∀ k, countTag k (splitImg s) = 0 :=
   ⟨splitImg_render s, fun k => splitImg_noTag k s⟩
 
+/-- **What the runner does with the result**: every tag of the contents handed to the template
+    resolves (`inputs` never reports "invalid image index"), tag `k` resolves to the image at
+    position `k` of the returned list, and that is an image of a retained message. -/
+theorem runner_resolves_every_tag (h : chatPrompt cfg cost bad msgs = .ok q n sys ret imgs)
+    (hno : ∀ m ∈ msgs, ∀ k, countTag k m.content = 0) :
+    (∀ k ∈ tagsOf (ret.flatMap (·.content)), ∃ hk : k < imgs.length, resolveTag imgs k = some imgs[k]) ∧
+    ∃ l, resolveTags imgs (tagsOf (ret.flatMap (·.content))) = some l ∧
+      l.length = (tagsOf (ret.flatMap (·.content))).length := by
+  obtain ⟨_, hid, hcount⟩ := images_once_indexed h hno
+  have key : ∀ k ∈ tagsOf (ret.flatMap (·.content)), ∃ hk : k < imgs.length, resolveTag imgs k = some imgs[k] := by
+    intro k hk
+    have hpos := mem_tagsOf_countTag k _ hk
+    rw [hcount k] at hpos
+    have hlt : k < imgs.length := by
+      by_cases hlt : k < imgs.length
+      · exact hlt
+      · simp [hlt] at hpos
+    exact ⟨hlt, resolveTag_of_IdsOk imgs hid k hlt⟩
+  refine ⟨key, resolveTags_all imgs _ (fun k hk => ?_)⟩
+  obtain ⟨hlt, hr⟩ := key k hk
+  exact ⟨_, hr⟩
+
+/-! ### the caller (ChatHandler) -/
+
+/-- the request's latest message is the conversation's latest message -/
+theorem handler_latest (mm : List Msg) (s : Bytes) (req : List Msg) (hne : req ≠ []) :
+    (handlerMsgs mm s req).getLast? = req.getLast? := by
+  cases req with
+  | nil => exact absurd rfl hne
+  | cons r0 rs =>
+    simp only [handlerMsgs]
+    split
+    · rw [List.getLast?_cons, List.getLast?_append]
+      simp [List.getLast?_cons]
+    · rw [List.getLast?_append]
+      simp [List.getLast?_cons]
+
+/-- the model's SYSTEM comes first unless the request itself starts with a system message -/
+theorem handler_model_system_first (mm : List Msg) (s : Bytes) (r0 : Msg) (rs : List Msg)
+    (hr : r0.role ≠ Role.system) (hs : s ≠ []) :
+    handlerMsgs mm s (r0 :: rs) = ⟨Role.system, splitImg s, []⟩ :: (mm ++ r0 :: rs) := by
+  have : s.isEmpty = false := by cases s <;> simp_all
+  simp [handlerMsgs, hr, this]
+
+/-- **End to end (repaired chatPrompt)**: the model's SYSTEM message is always handed to the
+    template — either among the system messages kept in front of the retained run, or, when
+    nothing was dropped, as the first retained message. -/
+theorem handler_model_system_reaches_template (mm : List Msg) (s : Bytes) (r0 : Msg) (rs : List Msg)
+    (hr : r0.role ≠ Role.system) (hs : s ≠ []) (hv : cfg.fixed = true)
+    (h : chatPrompt cfg cost bad (handlerMsgs mm s (r0 :: rs)) = .ok q n sys ret imgs) :
+    n = 0 ∨ (⟨Role.system, splitImg s, []⟩ : Msg) ∈ sys := by
+  rw [handler_model_system_first mm s r0 rs hr hs] at h
+  by_cases h0 : n = 0
+  · exact Or.inl h0
+  · right
+    apply (system_kept_fixed h hv).2
+    · cases n with
+      | zero => exact absurd rfl h0
+      | succ k => simp [List.take]
+    · rfl
+
+/-- the template-level function is the generic one instantiated with the executed template -/
+theorem templ_ok_generic {tv : TVar} {t : List Node} {mode : Nat} {p : Bytes}
+    (h : chatPromptT cfg tv t mode msgs = .ok q n sys ret imgs p) :
+    ∃ cost bad, chatPrompt cfg cost bad msgs = .ok q n sys ret imgs ∧
+      execute tv t ((sys ++ ret).map toRMsg) = .ok p := by
+  unfold chatPromptT at h
+  simp only at h
+  split at h
+  · cases h
+  · cases h
+  · cases h
+  · split at h <;> cases h
+  · rename_i q' n' sys' ret' imgs' hc
+    split at h
+    · cases h
+    · rename_i p' hp
+      injection h with h1 h2 h3 h4 h5 h6
+      subst h1; subst h2; subst h3; subst h4; subst h5; subst h6
+      exact ⟨_, _, hc, hp⟩
+
+/-- **collate loses nothing** (both Execute paths start with it): every message's content is
+    inside a merged message of the same role, and every system message's content is inside the
+    `.System` string. -/
+theorem collate_keeps_everything (msgs : List RMsg) (m : RMsg) (hm : m ∈ msgs) :
+    (∃ g ∈ (collate msgs).2, g.1 = m.1 ∧ m.2 <:+: g.2) ∧
+    (m.1 = Role.system → m.2 <:+: (collate msgs).1) :=
+  ⟨collateMsgs_infix msgs m hm, collate_system_infix msgs m hm⟩
+
 /-! ### witness of finding F4 and non-vacuity -/
 
 def txt (b : Bytes) : List Piece := [Piece.lit b]
@@ -309,6 +398,85 @@ theorem F4b_legacy_overwrite :
     execute ⟨2, false⟩ tLegacy [(.user, bHi), (.tool, bLong), (.user, bSYS)]
       = .ok (bHi ++ [10, 10] ++ bSYS ++ [32]) := by
   decide
+
+/-- `tLegacy` after the `.Response` cut: the text after the field is gone -/
+def tLegacyCut : List Node :=
+  [.ite (.field .system) [.action (.field .system), .text [32]] false [],
+   .ite (.field .prompt) [.action (.field .prompt), .text [32]] false [],
+   .ite (.field .response) [.action (.field .response)] false []]
+
+theorem tLegacy_cut (efix : Bool) : cutList efix tLegacy false = .ok true tLegacyCut := by
+  cases efix <;> rfl
+
+theorem isEmpty_eq_nil {b : Bytes} (h : b.isEmpty = true) : b = [] := by cases b <;> simp_all
+
+/-- closes goals `c <:+: a ++ x :: (c ++ …)` -/
+macro "inf_solve" : tactic => `(tactic|
+  repeat (first
+    | rfl
+    | exact List.nil_infix
+    | exact List.infix_refl _
+    | exact (List.prefix_append _ _).isInfix
+    | apply List.infix_cons
+    | apply inf_left))
+
+theorem tLegacy_renders : Renders tLegacy := by
+  intro s p r
+  cases hs : s.isEmpty <;> cases hp : p.isEmpty <;> cases hr : r.isEmpty <;>
+    simp [tLegacy, execList, execNode, eval, evalField, Root.get, legacyRoot, truthy, printVal,
+      XOut.append, hs, hp, hr] <;>
+    (try rw [isEmpty_eq_nil hs]) <;> (try rw [isEmpty_eq_nil hp]) <;> (try rw [isEmpty_eq_nil hr]) <;>
+    (repeat' apply And.intro) <;> inf_solve
+
+theorem tLegacyCut_renders : Renders tLegacyCut := by
+  intro s p r
+  cases hs : s.isEmpty <;> cases hp : p.isEmpty <;> cases hr : r.isEmpty <;>
+    simp [tLegacyCut, execList, execNode, eval, evalField, Root.get, legacyRoot, truthy, printVal,
+      XOut.append, hs, hp, hr] <;>
+    (try rw [isEmpty_eq_nil hs]) <;> (try rw [isEmpty_eq_nil hp]) <;> (try rw [isEmpty_eq_nil hr]) <;>
+    (repeat' apply And.intro) <;> inf_solve
+
+/-- **Join repair, the legacy template of prompt_test.go: nothing is lost.**  For every list of
+    messages, the content of every system / user / assistant message is in the prompt. -/
+theorem legacy_join_nothing_lost_tLegacy (efix : Bool) (msgs : List RMsg) (m : RMsg) (hm : m ∈ msgs)
+    (hrole : m.1 = Role.system ∨ m.1 = Role.user ∨ m.1 = Role.assistant) :
+    ∃ b, execute ⟨2, efix⟩ tLegacy msgs = .ok b ∧ m.2 <:+: b :=
+  legacy_join_nothing_lost tLegacy tLegacyCut efix true (by decide) (tLegacy_cut efix)
+    tLegacy_renders tLegacyCut_renders msgs m hm hrole
+
+/-- **The join repair changes nothing where nothing is lost today**: whenever the slot a message
+    is written to is empty (after the flush decision of the pinned code), the repaired step is
+    the pinned step. -/
+theorem join_step_conservative (t : List Node) (st : Legacy) (m : RMsg)
+    (hfree : match m.1 with
+      | .system => (!st.prompt.isEmpty || !st.resp.isEmpty) = true ∨ st.sys = []
+      | .user => (!st.resp.isEmpty) = true ∨ st.prompt = []
+      | .assistant => st.resp = []
+      | _ => True) :
+    legacyStep 2 t st m = legacyStep 0 t st m := by
+  obtain ⟨r, c⟩ := m
+  cases r with
+  | system =>
+    simp only at hfree
+    rcases hfree with h | h
+    · simp [legacyStep, h, legacyFlush, joinSlot]
+    · simp only [legacyStep]
+      by_cases hc : (!st.prompt.isEmpty || !st.resp.isEmpty) = true
+      · simp [hc, legacyFlush, joinSlot]
+      · simp [hc, h, joinSlot]
+  | user =>
+    simp only at hfree
+    rcases hfree with h | h
+    · simp [legacyStep, h, legacyFlush, joinSlot]
+    · simp only [legacyStep]
+      by_cases hc : (!st.resp.isEmpty) = true
+      · simp [hc, legacyFlush, joinSlot]
+      · simp [hc, h, joinSlot]
+  | assistant =>
+    simp only at hfree
+    simp [legacyStep, hfree, joinSlot]
+  | tool => rfl
+  | other => rfl
 
 /-- a legacy template whose `.Response` sits in an `if` WITH an `else` branch:
     `{{ .Prompt }}{{ if .System }}{{ .Response }}{{ else }}x{{ end }}` -/
